@@ -29,6 +29,7 @@ pub open spec fn sat(n: nat) -> u64 { if n <= u64::MAX { n as u64 } else { u64::
 pub open spec fn pos_sat(s: Seq<u8>) -> Option<u64> { if all_digits(s) { Some(sat(dec(s))) } else { None } }
 
 //@fn src/range.rs :: fn parse_pos props=C03,C13 implicit=C13 rules=R10,R20 missing=skip
+#[verifier::loop_isolation(false)]
 fn parse_pos(s: Str) -> (r: Option<u64>)
     ensures /*@C03 #positions_are_1_digit_of_any_length*/ r == pos_sat(s.b()),
 //@body
